@@ -1003,7 +1003,29 @@ def run(ctx):
                 tot["unlisted"] += cnt - len(examples)
                 allsigs[json.dumps(sg, sort_keys=True)] += cnt
         ctx.log("cpu: %.1fs building modules, %.1fs executing cases" % (tot["t_build"], tot["t_run"]))
+        # by-value structs of every shape (scalars, 1-D / multi-dimensional arrays, nested structs)
+        from . import _c13_structs as SS
+        space = SS.struct_space(2 if ctx.quick else 3)
+        sblocks = [(i, list(b)) for i, b in enumerate(pool.chunks(space, 40 if ctx.quick else 110))]
+        n_structs = n_scalls = 0
+        for st in space:
+            for c in SS.classify(st):
+                ctx.count("struct_shape_" + c)
+        for item, r in pool.pmap(SS.work, [[b] for b in sblocks], item_timeout=1800):
+            if isinstance(r, pool.WorkerError):
+                raise InfraError(r.tb)
+            if isinstance(r, pool.Crash):
+                ctx.violation({"kind": "crash", "site": "struct-shapes"}, {"struct_block": item[0], "how": r.describe()})
+                continue
+            ns, nc, bad = r
+            n_structs += ns
+            n_scalls += nc
+            for kind, pname, decl, info in bad:
+                ctx.violation({"kind": kind, "site": "struct-shapes", "path": pname},
+                              {"struct_shapes": True, "decl": decl, "path": pname, "info": info})
+        tot["cases"] += n_scalls
         cov = {
+            "by_value_struct_shapes": n_structs,
             "evaluations": tot["cases"],
             "executions": tot["cases"] * 4,
             "distinct_nontrivial": tot["nontrivial"],
@@ -1034,6 +1056,19 @@ def run(ctx):
 
 
 def replay(detail):
+    if detail.get("struct_shapes"):
+        from . import _c13_structs as SS
+        names = detail["decl"].replace(";", " ;").split(";")
+        want = [d.strip() for d in detail["decl"].split(";") if d.strip()]
+        kinds = []
+        for j, dtext in enumerate(want):
+            for k in SS.KINDS:
+                if k[1].format(n="f%d" % j).rstrip(";") == dtext:
+                    kinds.append(k)
+        n, nc, bad = SS.work((0, [tuple(kinds)]))
+        for b in bad:
+            print("MISMATCH", b)
+        return 1 if bad else 0
     facts()
     shared = build.scratch_shared()
     try:
